@@ -444,6 +444,22 @@ theorem entries_stepCore {t : Net} {op : Op} {x : Node} {e : Entry}
   | connect a b =>
     simp only [stepCore] at h
     split at h <;> exact Or.inl h
+  | disconnect a b =>
+    simp only [stepCore] at h
+    split at h
+    · simp only [setNode_nodes] at h
+      have hsub : ∀ (st : NodeSt) (p : Node), e ∈ (st.dropPeer p).entries → e ∈ st.entries := by
+        intro st p he
+        simp only [NodeSt.entries, NodeSt.dropPeer] at he ⊢
+        rcases List.mem_append.1 he with he | he
+        · exact List.mem_append_left _ (List.mem_filter.1 he).1
+        · exact List.mem_append_right _ (List.mem_filter.1 he).1
+      split at h
+      · rename_i hx; subst hx; exact Or.inl (hsub _ _ h)
+      · split at h
+        · rename_i hx; subst hx; exact Or.inl (hsub _ _ h)
+        · exact Or.inl h
+    · exact Or.inl h
   | replay a b ord =>
     simp only [stepCore] at h
     split at h
@@ -452,7 +468,7 @@ theorem entries_stepCore {t : Net} {op : Op} {x : Node} {e : Entry}
       · rename_i hx; subst hx; exact Or.inl h
       · exact Or.inl h
     · exact Or.inl h
-  | announce a =>
+  | announce a _ =>
     simp only [stepCore] at h
     split at h
     · simp only [setNode_nodes] at h
@@ -519,14 +535,208 @@ end MM.C11
 
 namespace MM.C11
 
+/-! ### what AnnounceLocalRoutes and SendFullTable emit -/
+
+theorem mem_splitAux {f : Nat} {rs g : List RAd} {r : RAd} (hg : g ∈ splitAux f rs) (hr : r ∈ g) : r ∈ rs := by
+  induction f generalizing rs with
+  | zero => simp only [splitAux, List.mem_singleton] at hg; subst hg; exact hr
+  | succ f ih =>
+    simp only [splitAux] at hg
+    split at hg
+    · simp only [List.mem_singleton] at hg; subst hg; exact hr
+    · rcases List.mem_cons.1 hg with hg | hg
+      · subst hg; exact List.mem_of_mem_take hr
+      · exact List.mem_of_mem_drop (ih hg)
+
+theorem splitAux_covers {f : Nat} {rs : List RAd} {r : RAd} (hr : r ∈ rs) : ∃ g, g ∈ splitAux f rs ∧ r ∈ g := by
+  induction f generalizing rs with
+  | zero => exact ⟨rs, by simp [splitAux], hr⟩
+  | succ f ih =>
+    simp only [splitAux]
+    split
+    · exact ⟨rs, by simp, hr⟩
+    · rw [← List.take_append_drop maxRoutesPerAdv rs] at hr
+      rcases List.mem_append.1 hr with hr | hr
+      · exact ⟨_, List.mem_cons_self, hr⟩
+      · obtain ⟨g, hg, hrg⟩ := ih hr
+        exact ⟨g, List.mem_cons_of_mem _ hg, hrg⟩
+
+theorem mem_effGroups {all : List RAd} {hint : List (List RAd)} {g : List RAd} {r : RAd}
+    (hg : g ∈ effGroups all hint) (hr : r ∈ g) : r ∈ all := by
+  unfold effGroups at hg
+  split at hg
+  · rename_i hok
+    simp only [groupingOK, Bool.and_eq_true, List.all_eq_true] at hok
+    have := hok.1.1 g hg
+    simp only [groupOK, Bool.and_eq_true, List.all_eq_true, List.contains_eq_mem, decide_eq_true_eq] at this
+    exact this.1 r hr
+  · exact mem_splitAux hg hr
+
+theorem effGroups_covers {all : List RAd} {hint : List (List RAd)} {r : RAd} (hr : r ∈ all) :
+    ∃ g, g ∈ effGroups all hint ∧ r ∈ g := by
+  unfold effGroups
+  split
+  · rename_i hok
+    simp only [groupingOK, Bool.and_eq_true, List.all_eq_true, List.contains_eq_mem, decide_eq_true_eq] at hok
+    have := hok.2 r hr
+    rcases List.mem_flatten.1 this with ⟨g, hg, hrg⟩
+    exact ⟨g, hg, hrg⟩
+  · exact splitAux_covers hr
+
+/-- Shape of an advertisement built by AnnounceLocalRoutes (`n` = number of advertisements built). -/
+structure IsAnnounced (me : Node) (st : NodeSt) (n : Nat) (m : Adv) : Prop where
+  origin : m.origin = me
+  path : m.path = [me]
+  seenBy : m.seenBy = [me]
+  wd : m.wd = false
+  seq_gt : st.seq < m.seq
+  seq_le : m.seq ≤ st.seq + n
+  routes : ∀ r, r ∈ m.routes → r ∈ announcedRoutes me st
+
+theorem mem_announceAdvsAux {self : Node} {m : Adv} (gs : List (List RAd)) (seq : Nat)
+    (h : m ∈ announceAdvsAux self gs seq) :
+    ∃ g, g ∈ gs ∧ m.origin = self ∧ m.path = [self] ∧ m.seenBy = [self] ∧ m.wd = false ∧
+      seq < m.seq ∧ m.seq ≤ seq + gs.length ∧ m.routes = g := by
+  induction gs generalizing seq with
+  | nil => simp [announceAdvsAux] at h
+  | cons g t ih =>
+    simp only [announceAdvsAux] at h
+    rcases List.mem_cons.1 h with h | h
+    · subst h
+      exact ⟨g, List.mem_cons_self, rfl, rfl, rfl, rfl, by simp, by simp, rfl⟩
+    · obtain ⟨g', hg', h1, h2, h3, h4, h5, h6, h7⟩ := ih (seq + 1) h
+      exact ⟨g', List.mem_cons_of_mem _ hg', h1, h2, h3, h4, by omega, by simp only [List.length_cons]; omega, h7⟩
+
+theorem announceAdvsAux_length (self : Node) (gs : List (List RAd)) (seq : Nat) :
+    (announceAdvsAux self gs seq).length = gs.length := by
+  induction gs generalizing seq with
+  | nil => rfl
+  | cons g t ih => simp [announceAdvsAux, ih]
+
+theorem mem_announceAdvs {self : Node} {st : NodeSt} {hint : List (List RAd)} {m : Adv}
+    (h : m ∈ announceAdvs self st hint) : IsAnnounced self st (announceAdvs self st hint).length m := by
+  unfold announceAdvs at h ⊢
+  obtain ⟨g, hg, h1, h2, h3, h4, h5, h6, h7⟩ := mem_announceAdvsAux _ _ h
+  refine ⟨h1, h2, h3, h4, h5, by rw [announceAdvsAux_length]; exact h6, ?_⟩
+  intro r hr
+  rw [h7] at hr
+  exact mem_effGroups hg hr
+
+theorem announceAdvsAux_covers {self : Node} (gs : List (List RAd)) (seq : Nat) {g : List RAd} (hg : g ∈ gs) :
+    ∃ m, m ∈ announceAdvsAux self gs seq ∧ m.routes = g := by
+  induction gs generalizing seq with
+  | nil => cases hg
+  | cons g0 t ih =>
+    simp only [announceAdvsAux]
+    rcases List.mem_cons.1 hg with hg | hg
+    · subst hg; exact ⟨_, List.mem_cons_self, rfl⟩
+    · obtain ⟨m, hm, hr⟩ := ih (seq + 1) hg
+      exact ⟨m, List.mem_cons_of_mem _ hm, hr⟩
+
+/-- Every announced route (local routes and the presence route) is carried by one of the
+    advertisements of an announcement. -/
+theorem announce_covers {self : Node} {st : NodeSt} {hint : List (List RAd)} {r : RAd}
+    (hr : r ∈ announcedRoutes self st) : ∃ m, m ∈ announceAdvs self st hint ∧ r ∈ m.routes := by
+  obtain ⟨g, hg, hrg⟩ := effGroups_covers (hint := hint) hr
+  obtain ⟨m, hm, hmr⟩ := announceAdvsAux_covers (self := self) _ st.seq hg
+  exact ⟨m, hm, by rw [hmr]; exact hrg⟩
+
+theorem mem_originEntries {st : NodeSt} {peer o : Nat} {e : Entry} (h : e ∈ originEntries st peer o) :
+    e ∈ st.entries ∧ e.origin = o ∧ e.nextHop ≠ peer := by
+  simp only [originEntries, pickTab, pickAgents, List.mem_append, List.mem_filter, Bool.and_eq_true,
+    beq_iff_eq, bne_iff_ne, ne_eq] at h
+  simp only [NodeSt.entries, List.mem_append]
+  rcases h with ((h | h) | h) | h
+  · exact ⟨Or.inl h.1, h.2.1.2, h.2.2⟩
+  · exact ⟨Or.inr h.1, h.2.1, h.2.2⟩
+  · exact ⟨Or.inl h.1, h.2.1.2, h.2.2⟩
+  · exact ⟨Or.inl h.1, h.2.1.2, h.2.2⟩
+
+/-- Shape of an advertisement built by SendFullTable(peer). -/
+structure IsReplayed (me peer : Node) (st : NodeSt) (n : Nat) (m : Adv) : Prop where
+  seenBy : m.seenBy = [me]
+  wd : m.wd = false
+  seq_gt : st.seq < m.seq
+  seq_le : m.seq ≤ st.seq + n
+  routes : ∀ r, r ∈ m.routes → ∃ e, e ∈ st.entries ∧ e.origin = m.origin ∧ e.nextHop ≠ peer ∧ r = toRAd e
+  path : ∃ p, m.path = me :: p ∧
+    ((p = [] ∧ ((∀ e, e ∈ st.entries → e.origin = m.origin → e.path ≠ []) → m.routes = [])) ∨
+     (p ≠ [] ∧ ∃ e, e ∈ st.entries ∧ e.origin = m.origin ∧ e.nextHop ≠ peer ∧ e.path = p))
+
+theorem mem_replayAdvsAux {self : Node} {m : Adv} (frs : List RFrame) (seq : Nat)
+    (h : m ∈ replayAdvsAux self frs seq) :
+    ∃ fr, fr ∈ frs ∧ m.origin = fr.origin ∧ m.routes = fr.routes ∧ m.path = self :: fr.ptail ∧
+      m.seenBy = [self] ∧ m.wd = false ∧ seq < m.seq ∧ m.seq ≤ seq + frs.length := by
+  induction frs generalizing seq with
+  | nil => simp [replayAdvsAux] at h
+  | cons fr t ih =>
+    simp only [replayAdvsAux] at h
+    rcases List.mem_cons.1 h with h | h
+    · subst h
+      exact ⟨fr, List.mem_cons_self, rfl, rfl, rfl, rfl, rfl, by simp, by simp⟩
+    · obtain ⟨fr', hfr', h1, h2, h3, h4, h5, h6, h7⟩ := ih (seq + 1) h
+      exact ⟨fr', List.mem_cons_of_mem _ hfr', h1, h2, h3, h4, h5, by omega, by simp only [List.length_cons]; omega⟩
+
+theorem replayAdvsAux_length (self : Node) (frs : List RFrame) (seq : Nat) :
+    (replayAdvsAux self frs seq).length = frs.length := by
+  induction frs generalizing seq with
+  | nil => rfl
+  | cons fr t ih => simp [replayAdvsAux, ih]
+
+theorem effFrames_ok {st : NodeSt} {peer : Node} {hint : List RFrame} {fr : RFrame}
+    (h : fr ∈ effFrames st peer hint) : frameOK st peer fr = true := by
+  unfold effFrames at h
+  split at h
+  · rename_i hok
+    simp only [hintOK, Bool.and_eq_true, List.all_eq_true] at hok
+    exact hok.1.1 fr h
+  · exact (List.mem_filter.1 h).2
+
+theorem mem_replayAdvs {self peer : Node} {st : NodeSt} {hint : List RFrame} {m : Adv}
+    (h : m ∈ replayAdvs self peer st hint) : IsReplayed self peer st (replayAdvs self peer st hint).length m := by
+  unfold replayAdvs at h ⊢
+  obtain ⟨fr, hfr, ho, hr, hp, hs, hw, h1, h2⟩ := mem_replayAdvsAux _ _ h
+  have hok := effFrames_ok hfr
+  simp only [frameOK, Bool.and_eq_true, List.all_eq_true, List.contains_eq_mem, decide_eq_true_eq] at hok
+  obtain ⟨⟨⟨_, hsub⟩, _⟩, htail⟩ := hok
+  have hroutes : ∀ r, r ∈ m.routes → ∃ e, e ∈ st.entries ∧ e.origin = m.origin ∧ e.nextHop ≠ peer ∧ r = toRAd e := by
+    intro r hrm
+    rw [hr] at hrm
+    have := hsub r hrm
+    simp only [baseRoutes, List.mem_map] at this
+    obtain ⟨e, he, rfl⟩ := this
+    obtain ⟨g1, g2, g3⟩ := mem_originEntries he
+    exact ⟨e, g1, by rw [ho]; exact g2, g3, rfl⟩
+  refine ⟨hs, hw, h1, by rw [replayAdvsAux_length]; exact h2, hroutes, fr.ptail, hp, ?_⟩
+  by_cases hpt : fr.ptail = []
+  · refine Or.inl ⟨hpt, ?_⟩
+    intro hne
+    simp only [hpt, beq_self_eq_true, if_true, Bool.or_eq_true, List.any_eq_true, beq_iff_eq,
+      List.isEmpty_iff] at htail
+    rcases htail with ⟨e, he, hpe⟩ | hempty
+    · obtain ⟨g1, g2, _⟩ := mem_originEntries he
+      exact absurd hpe (hne e g1 (by rw [ho]; exact g2))
+    · rw [hr]
+      cases hfrr : fr.routes with
+      | nil => rfl
+      | cons r t =>
+        have := hsub r (by rw [hfrr]; exact List.mem_cons_self)
+        rw [hempty] at this; cases this
+  · refine Or.inr ⟨hpt, ?_⟩
+    have hb : (fr.ptail == []) = false := by simpa using hpt
+    simp only [hb, Bool.false_eq_true, if_false, List.any_eq_true, beq_iff_eq] at htail
+    obtain ⟨e, he, hpe⟩ := htail
+    obtain ⟨g1, g2, g3⟩ := mem_originEntries he
+    exact ⟨e, g1, by rw [ho]; exact g2, g3, hpe⟩
+
 /-! ### where an in-flight frame of the next state comes from -/
 
 inductive FlightFrom (t : Net) (op : Op) (f : Flight) : Prop where
   /-- it was already in flight -/
   | old (h : f ∈ t.flight)
   /-- `AnnounceLocalRoutes` at `f.src` -/
-  | ann (hop : op = .announce f.src) (ha : f.src < t.n) (hd : f.dst ∈ peersOf t f.src)
-      (hadv : f.adv = announceAdv f.src (t.nodes f.src))
+  | ann (hint : List (List RAd)) (hop : op = .announce f.src hint) (ha : f.src < t.n) (hd : f.dst ∈ peersOf t f.src)
+      (hadv : f.adv ∈ announceAdvs f.src (t.nodes f.src) hint)
   /-- `f.src` processed frame `m` received from `a` and forwarded it -/
   | fwd (a : Node) (m : Adv) (hm : (⟨a, f.src, m⟩ : Flight) ∈ t.flight) (hl : linked t a f.src = true)
       (ha : a < t.n) (hb : f.src < t.n) (hd : f.dst ∈ peersOf t f.src) (hne : f.dst ≠ a)
@@ -539,7 +749,7 @@ inductive FlightFrom (t : Net) (op : Op) (f : Flight) : Prop where
       (hcidr : (t.nodes f.src).locals.any (fun r => r.kind == 0) = true) (hd : f.dst ∈ peersOf t f.src)
       (hadv : f.adv = withdrawAdv f.src (t.nodes f.src))
   /-- `SendFullTable(f.dst)` at `f.src` -/
-  | rep (ord : List Node) (hop : op = .replay f.src f.dst ord) (ha : f.src < t.n) (hb : f.dst < t.n)
+  | rep (ord : List RFrame) (hop : op = .replay f.src f.dst ord) (ha : f.src < t.n) (hb : f.dst < t.n)
       (hl : linked t f.src f.dst = true) (hadv : f.adv ∈ replayAdvs f.src f.dst (t.nodes f.src) ord)
 
 theorem flight_process {t : Net} {op : Op} {fl : List Flight} {a b : Node} {f0 f : Flight}
@@ -563,6 +773,11 @@ theorem flight_stepCore {t : Net} {op : Op} {f : Flight} (h : f ∈ (stepCore t 
   | connect a b =>
     simp only [stepCore] at h
     split at h <;> exact .old h
+  | disconnect a b =>
+    simp only [stepCore] at h
+    split at h
+    · exact .old (List.mem_filter.1 h).1
+    · exact .old h
   | replay a b ord =>
     simp only [stepCore] at h
     split at h
@@ -572,14 +787,15 @@ theorem flight_stepCore {t : Net} {op : Op} {f : Flight} (h : f ∈ (stepCore t 
       · rcases List.mem_map.1 h with ⟨m, hm, rfl⟩
         exact .rep ord rfl hc.1 hc.2.1 hc.2.2 hm
     · exact .old h
-  | announce a =>
+  | announce a hint =>
     simp only [stepCore] at h
     split at h
     · rename_i hc
       rcases List.mem_append.1 h with h | h
       · exact .old h
-      · rcases List.mem_map.1 h with ⟨p, hp, rfl⟩
-        exact .ann rfl hc hp rfl
+      · rcases List.mem_flatMap.1 h with ⟨m, hm, hf⟩
+        rcases List.mem_map.1 hf with ⟨p, hp, rfl⟩
+        exact .ann hint rfl hc hp hm
     · exact .old h
   | withdraw a =>
     simp only [stepCore] at h
@@ -627,9 +843,10 @@ theorem flight_stepCore {t : Net} {op : Op} {f : Flight} (h : f ∈ (stepCore t 
 
 /-! ### links only grow -/
 
-theorem linked_stepCore {t : Net} {op : Op} {a b : Node} (h : linked t a b = true) :
-    linked (stepCore t op) a b = true := by
+theorem linked_stepCore {t : Net} {op : Op} {a b : Node} (hnd : ∀ c d, op ≠ .disconnect c d)
+    (h : linked t a b = true) : linked (stepCore t op) a b = true := by
   cases op with
+  | disconnect c d => exact absurd rfl (hnd c d)
   | connect c d =>
     simp only [stepCore]
     split
@@ -637,7 +854,7 @@ theorem linked_stepCore {t : Net} {op : Op} {a b : Node} (h : linked t a b = tru
       exact Or.inr h
     · exact h
   | replay c d ord => simp only [stepCore]; split <;> exact h
-  | announce c => simp only [stepCore]; split <;> exact h
+  | announce c _ => simp only [stepCore]; split <;> exact h
   | withdraw c => simp only [stepCore]; split <;> exact h
   | deliver c d i =>
     simp only [stepCore]
@@ -669,8 +886,8 @@ theorem linked_stepCore {t : Net} {op : Op} {a b : Node} (h : linked t a b = tru
 
 theorem linked_tick (s : Net) (a b : Node) : linked (tick s) a b = linked s a b := rfl
 
-theorem linked_step {s : Net} {op : Op} {a b : Node} (h : linked s a b = true) :
-    linked (step s op) a b = true := linked_stepCore (t := tick s) h
+theorem linked_step {s : Net} {op : Op} {a b : Node} (hnd : ∀ c d, op ≠ .disconnect c d)
+    (h : linked s a b = true) : linked (step s op) a b = true := linked_stepCore (t := tick s) hnd h
 
 theorem entries_step {s : Net} {op : Op} {x : Node} {e : Entry}
     (h : e ∈ ((step s op).nodes x).entries) :
@@ -696,6 +913,15 @@ theorem locals_stepCore (t : Net) (op : Op) (x : Node) :
     ((stepCore t op).nodes x).locals = (t.nodes x).locals := by
   cases op with
   | connect a b => simp only [stepCore]; split <;> rfl
+  | disconnect a b =>
+    simp only [stepCore]
+    split
+    · simp only [setNode_nodes]; split
+      · rename_i hx; subst hx; rfl
+      · split
+        · rename_i hx; subst hx; rfl
+        · rfl
+    · rfl
   | replay a b ord =>
     simp only [stepCore]
     split
@@ -703,7 +929,7 @@ theorem locals_stepCore (t : Net) (op : Op) (x : Node) :
       · rename_i hx; subst hx; rfl
       · rfl
     · rfl
-  | announce a =>
+  | announce a _ =>
     simp only [stepCore]
     split
     · simp only [setNode_nodes]; split
@@ -803,106 +1029,6 @@ theorem initNode_entries (self : Node) (ls : List RAd) :
   intro e he
   simp [NodeSt.entries] at he
 
-/-! ### what SendFullTable sends -/
-
-theorem mem_replayAdvsAux {self peer : Node} {st : NodeSt} {m : Adv} (os : List Node) (seq : Nat)
-    (h : m ∈ replayAdvsAux self peer st os seq) :
-    ∃ o sq, o ∈ os ∧ seq < sq ∧ sq ≤ seq + os.length ∧ m = replayGroup self peer st o sq := by
-  induction os generalizing seq with
-  | nil => simp [replayAdvsAux] at h
-  | cons o t ih =>
-    simp only [replayAdvsAux] at h
-    rcases List.mem_cons.1 h with h | h
-    · exact ⟨o, seq + 1, List.mem_cons_self, by omega, by simp, h⟩
-    · rcases ih (seq + 1) h with ⟨o', sq, ho', h1, h2, hm⟩
-      exact ⟨o', sq, List.mem_cons_of_mem _ ho', by omega, by simp only [List.length_cons]; omega, hm⟩
-
-theorem replayAdvsAux_length (self peer : Node) (st : NodeSt) (os : List Node) (seq : Nat) :
-    (replayAdvsAux self peer st os seq).length = os.length := by
-  induction os generalizing seq with
-  | nil => rfl
-  | cons o t ih => simp [replayAdvsAux, ih]
-
-/-- Every advertisement of a replay is a `replayGroup` numbered from the replayer's own counter. -/
-theorem mem_replayAdvs {self peer : Node} {st : NodeSt} {ord : List Node} {m : Adv}
-    (h : m ∈ replayAdvs self peer st ord) :
-    ∃ o sq, st.seq < sq ∧ sq ≤ st.seq + (replayAdvs self peer st ord).length ∧
-      m = replayGroup self peer st o sq := by
-  unfold replayAdvs at h ⊢
-  rcases mem_replayAdvsAux _ _ h with ⟨o, sq, _, h1, h2, hm⟩
-  exact ⟨o, sq, h1, by rw [replayAdvsAux_length]; exact h2, hm⟩
-
-theorem replayGroup_origin (self peer : Node) (st : NodeSt) (o sq : Nat) :
-    (replayGroup self peer st o sq).origin = o ∧ (replayGroup self peer st o sq).seq = sq ∧
-    (replayGroup self peer st o sq).seenBy = [self] := ⟨rfl, rfl, rfl⟩
-
-/-- Every route of a replayed group is a stored route of that origin, with its stored metric. -/
-theorem replayGroup_routes {self peer : Node} {st : NodeSt} {o sq : Nat} {r : RAd}
-    (h : r ∈ (replayGroup self peer st o sq).routes) :
-    ∃ e, e ∈ st.entries ∧ e.origin = o ∧ e.nextHop ≠ peer ∧ r = toRAd e := by
-  simp only [replayGroup, List.mem_map, List.mem_append, List.mem_filter, Bool.and_eq_true, beq_iff_eq,
-    bne_iff_ne, ne_eq] at h
-  rcases h with ⟨e, he, rfl⟩
-  simp only [NodeSt.entries, List.mem_append]
-  rcases he with ((he | he) | he) | he
-  · exact ⟨e, Or.inl he.1, he.2.1.2, he.2.2, rfl⟩
-  · exact ⟨e, Or.inr he.1, he.2.1, he.2.2, rfl⟩
-  · exact ⟨e, Or.inl he.1, he.2.1.2, he.2.2, rfl⟩
-  · exact ⟨e, Or.inl he.1, he.2.1.2, he.2.2, rfl⟩
-
-theorem firstPath_some {l : List Entry} {p : List Node} (h : firstPath l = some p) :
-    ∃ e, e ∈ l ∧ e.path = p ∧ p ≠ [] := by
-  cases l with
-  | nil => simp [firstPath] at h
-  | cons e t =>
-    simp only [firstPath] at h
-    split at h
-    · rename_i hlen
-      simp only [Option.some.injEq] at h
-      refine ⟨e, List.mem_cons_self, h, ?_⟩
-      subst h
-      intro hp; rw [hp] at hlen; simp at hlen
-    · cases h
-
-/-- The path of a replayed group: the replayer, followed by nothing or by the stored path of one
-    of that origin's routes. -/
-theorem replayGroup_path (self peer : Node) (st : NodeSt) (o sq : Nat) :
-    (replayGroup self peer st o sq).path = [self] ∨
-    ∃ e, e ∈ st.entries ∧ e.origin = o ∧ e.nextHop ≠ peer ∧ e.path ≠ [] ∧
-      (replayGroup self peer st o sq).path = self :: e.path := by
-  have pick : ∀ k e, e ∈ st.tab.filter (fun e => e.kind == k && e.origin == o && e.nextHop != peer) →
-      e ∈ st.entries ∧ e.origin = o ∧ e.nextHop ≠ peer := by
-    intro k e he
-    simp only [List.mem_filter, Bool.and_eq_true, beq_iff_eq, bne_iff_ne, ne_eq] at he
-    exact ⟨List.mem_append_left _ he.1, he.2.1.2, he.2.2⟩
-  have pickA : ∀ e, e ∈ st.agents.filter (fun e => e.origin == o && e.nextHop != peer) →
-      e ∈ st.entries ∧ e.origin = o ∧ e.nextHop ≠ peer := by
-    intro e he
-    simp only [List.mem_filter, Bool.and_eq_true, beq_iff_eq, bne_iff_ne, ne_eq] at he
-    exact ⟨List.mem_append_right _ he.1, he.2.1, he.2.2⟩
-  simp only [replayGroup]
-  split
-  · rename_i p hp
-    rcases firstPath_some hp with ⟨e, he, hpe, hne⟩
-    obtain ⟨h1, h2, h3⟩ := pick 0 e he
-    exact Or.inr ⟨e, h1, h2, h3, hpe ▸ hne, by rw [hpe]⟩
-  · split
-    · rename_i p hp
-      rcases firstPath_some hp with ⟨e, he, hpe, hne⟩
-      obtain ⟨h1, h2, h3⟩ := pickA e he
-      exact Or.inr ⟨e, h1, h2, h3, hpe ▸ hne, by rw [hpe]⟩
-    · split
-      · rename_i p hp
-        rcases firstPath_some hp with ⟨e, he, hpe, hne⟩
-        obtain ⟨h1, h2, h3⟩ := pick 2 e he
-        exact Or.inr ⟨e, h1, h2, h3, hpe ▸ hne, by rw [hpe]⟩
-      · split
-        · rename_i p hp
-          rcases firstPath_some hp with ⟨e, he, hpe, hne⟩
-          obtain ⟨h1, h2, h3⟩ := pick 1 e he
-          exact Or.inr ⟨e, h1, h2, h3, hpe ▸ hne, by rw [hpe]⟩
-        · exact Or.inl rfl
-
 end MM.C11
 
 namespace MM.C11
@@ -922,6 +1048,15 @@ def benignRun (s : Net) : List Op → Bool
   | [] => true
   | op :: t => benignOp s op && benignRun (step s op) t
 
+/-- Same, when the step lemma needs to know that the op belongs to the schedule. -/
+theorem run_induction_mem {P : Net → Prop} (s : Net) (ops : List Op) (h0 : P s)
+    (hstep : ∀ s op, op ∈ ops → P s → P (step s op)) : P (run s ops) := by
+  induction ops generalizing s with
+  | nil => exact h0
+  | cons op t ih =>
+    exact ih (step s op) (hstep s op List.mem_cons_self h0)
+      (fun s' op' hop' => hstep s' op' (List.mem_cons_of_mem _ hop'))
+
 theorem run_induction_benign {P : Net → Prop} (s : Net) (ops : List Op) (h0 : P s)
     (hb : benignRun s ops = true)
     (hstep : ∀ s op, P s → benignOp s op = true → P (step s op)) : P (run s ops) := by
@@ -931,7 +1066,7 @@ theorem run_induction_benign {P : Net → Prop} (s : Net) (ops : List Op) (h0 : 
     simp only [benignRun, Bool.and_eq_true] at hb
     exact ih (step s op) (hstep s op h0 hb.1) hb.2
 
-theorem benign_replay {s : Net} {a b : Node} {ord : List Node} {m : Adv}
+theorem benign_replay {s : Net} {a b : Node} {ord : List RFrame} {m : Adv}
     (hb : benignOp s (.replay a b ord) = true) (hm : m ∈ replayAdvs a b (s.nodes a) ord) :
     m.origin = a ∧ m.path = [a] := by
   simp only [benignOp, List.all_eq_true] at hb
@@ -976,12 +1111,13 @@ namespace MM.C11
 
 /-! ### links: exact effect of a step; refined shape of a replayed group -/
 
-theorem links_stepCore_eq (t : Net) (op : Op) (h : ∀ a b, op ≠ .connect a b) :
-    (stepCore t op).links = t.links := by
+theorem links_stepCore_eq (t : Net) (op : Op) (h : ∀ a b, op ≠ .connect a b)
+    (hd : ∀ a b, op ≠ .disconnect a b) : (stepCore t op).links = t.links := by
   cases op with
   | connect a b => exact absurd rfl (h a b)
+  | disconnect a b => exact absurd rfl (hd a b)
   | replay c d ord => simp only [stepCore]; split <;> rfl
-  | announce c => simp only [stepCore]; split <;> rfl
+  | announce c _ => simp only [stepCore]; split <;> rfl
   | withdraw c => simp only [stepCore]; split <;> rfl
   | deliver c d i =>
     simp only [stepCore]; split
@@ -1003,70 +1139,5 @@ theorem mem_peersOf {s : Net} {a p : Node} (h : p ∈ peersOf s a) : linked s a 
   unfold peersOf at h
   rcases List.mem_filter.1 h with ⟨h1, h2⟩
   exact ⟨h2, List.mem_range.1 h1⟩
-
-theorem firstPath_none_nil {l : List Entry} (h : firstPath l = none) (hne : ∀ e, e ∈ l → e.path ≠ []) :
-    l = [] := by
-  cases l with
-  | nil => rfl
-  | cons e t =>
-    exfalso
-    simp only [firstPath] at h
-    split at h
-    · cases h
-    · rename_i hlen
-      apply hne e List.mem_cons_self
-      apply List.eq_nil_of_length_eq_zero
-      omega
-
-/-- Shape of a replayed group: either its path is the replayer followed by the stored (non-empty)
-    path of one of that origin's routes, or it is just `[replayer]` — and then, if every stored
-    route of that origin has a non-empty path, the group carries no routes at all. -/
-theorem replayGroup_cases (self peer : Node) (st : NodeSt) (o sq : Nat) :
-    (∃ e, e ∈ st.entries ∧ e.origin = o ∧ e.nextHop ≠ peer ∧ e.path ≠ [] ∧
-      (replayGroup self peer st o sq).path = self :: e.path) ∨
-    ((replayGroup self peer st o sq).path = [self] ∧
-      ((∀ e, e ∈ st.entries → e.origin = o → e.path ≠ []) → (replayGroup self peer st o sq).routes = [])) := by
-  have pick : ∀ k e, e ∈ st.tab.filter (fun e => e.kind == k && e.origin == o && e.nextHop != peer) →
-      e ∈ st.entries ∧ e.origin = o ∧ e.nextHop ≠ peer := by
-    intro k e he
-    simp only [List.mem_filter, Bool.and_eq_true, beq_iff_eq, bne_iff_ne, ne_eq] at he
-    exact ⟨List.mem_append_left _ he.1, he.2.1.2, he.2.2⟩
-  have pickA : ∀ e, e ∈ st.agents.filter (fun e => e.origin == o && e.nextHop != peer) →
-      e ∈ st.entries ∧ e.origin = o ∧ e.nextHop ≠ peer := by
-    intro e he
-    simp only [List.mem_filter, Bool.and_eq_true, beq_iff_eq, bne_iff_ne, ne_eq] at he
-    exact ⟨List.mem_append_right _ he.1, he.2.1, he.2.2⟩
-  simp only [replayGroup]
-  split
-  · rename_i p hp
-    rcases firstPath_some hp with ⟨e, he, hpe, hne⟩
-    obtain ⟨h1, h2, h3⟩ := pick 0 e he
-    exact Or.inl ⟨e, h1, h2, h3, hpe ▸ hne, by rw [hpe]⟩
-  · rename_i h0
-    split
-    · rename_i p hp
-      rcases firstPath_some hp with ⟨e, he, hpe, hne⟩
-      obtain ⟨h1, h2, h3⟩ := pickA e he
-      exact Or.inl ⟨e, h1, h2, h3, hpe ▸ hne, by rw [hpe]⟩
-    · rename_i hA
-      split
-      · rename_i p hp
-        rcases firstPath_some hp with ⟨e, he, hpe, hne⟩
-        obtain ⟨h1, h2, h3⟩ := pick 2 e he
-        exact Or.inl ⟨e, h1, h2, h3, hpe ▸ hne, by rw [hpe]⟩
-      · rename_i h2
-        split
-        · rename_i p hp
-          rcases firstPath_some hp with ⟨e, he, hpe, hne⟩
-          obtain ⟨h1, h2', h3⟩ := pick 1 e he
-          exact Or.inl ⟨e, h1, h2', h3, hpe ▸ hne, by rw [hpe]⟩
-        · rename_i h1
-          refine Or.inr ⟨rfl, ?_⟩
-          intro hne
-          rw [firstPath_none_nil h0 (fun e he => hne e (pick 0 e he).1 (pick 0 e he).2.1),
-            firstPath_none_nil hA (fun e he => hne e (pickA e he).1 (pickA e he).2.1),
-            firstPath_none_nil h2 (fun e he => hne e (pick 2 e he).1 (pick 2 e he).2.1),
-            firstPath_none_nil h1 (fun e he => hne e (pick 1 e he).1 (pick 1 e he).2.1)]
-          rfl
 
 end MM.C11
